@@ -26,14 +26,14 @@ class C04(Check):
     LEVEL = 'exploration'
     BUDGET = {'quick': 30, 'thorough': 240}
     RULE = ('case = (key mapper, stream, parent context, inner pipeline). Key mappers return values that are equal but not identical objects: 1-tuples built per item, '
-            'ints > 2^40 computed at run time, float(i%k), strings built with %, and int for even / float for odd items (1 == 1.0: same group), and DIFFERENT keys whose hashes collide (-1 / -2, multiples of 2**61-1, tuples of those); 1..200 distinct keys; '
+            'ints > 2^40 computed at run time, float(i%k), strings built with %, and int for even / float for odd items (1 == 1.0: same group), and DIFFERENT keys whose hashes collide (-1 / -2, multiples of 2**61-1, tuples of those); 1..200 distinct keys (every 60th case 300 or 1000 keys); '
             '0..400 items; group_by at top level, nested in group_by, in roll (key slots reused by successive windows: w != s and w == s), in split, group_by>roll; inner pipeline '
             'to_list (groups flushed at completion) or a per-item map (output in source order). non-trivial = some key lifetime has >= 2 groups each with >= 2 items; '
             'distinct = hash of the case')
     ASSUMPTIONS = ['keys are hashable and == is an equivalence on them (NaN / unhashable keys are outside the statement)']
     ANCHORS = ['rxsci/operators/group_by.py', 'rxsci/operators/multiplex.py', 'rxsci/state/memory_store.py']
     REQUIRED_TAGS = ['top', 'group', 'roll', 'roll_eq', 'split', 'key=kt', 'key=ks', 'key=kbig', 'key=kf', 'key=kmix', 'key=kneg', 'key=kmers', 'key=ktneg', 'per-item', 'to_list',
-                     'many-keys', 'empty']
+                     'many-keys', 'empty', 'over-256-keys']
     REQUIRED_OBSERVED = ['child_lifetimes_checked', 'parent_lifetimes_checked', 'groups_flushed_at_completion']
 
     def generate(self, rng, tier, shard, nshards):
@@ -41,8 +41,11 @@ class C04(Check):
         names = ['top', 'group', 'roll', 'roll_eq', 'split', 'group>roll', 'roll>group', 'top']
         for j in range(k):
             name = names[j % len(names)]
-            nk = rng.choice([1, 2, 3, 5, 8, 40, 200])
+            nk = rng.choice([1, 2, 3, 5, 8, 40, 200]) if j % 60 != 30 else rng.choice([300, 1000])
             n = rng.choice([0, 1, 3, 10, 30, 80, 200, 400]) if nk >= 40 else rng.choice([0, 1, 3, 10, 30, 80])
+            if nk >= 300:
+                n = rng.choice([1200, 2500])        # more than 256 groups alive: group indices beyond the small-int cache / first growth block
+                name = ['top', 'group', 'split'][(j // 60) % 3]
             hi = max(nk * 2, 12)
             items = [rng.randint(0, hi) for _ in range(n)]
             yield {'key': KEYS[j % len(KEYS)] % nk, 'parent': name, 'parent_node': windows.PARENTS[name](rng),
@@ -72,6 +75,8 @@ class C04(Check):
                 out.nontrivial = True
             if len(exp) >= 30:
                 out.tags.append('many-keys')
+            if len(exp) > 256:
+                out.tags.append('over-256-keys')
             if windows.check_partition(out, ob, p, exp, 'group_by', check_outputs=(case['inner'] == 'to_list')):
                 return out
             if case['inner'] != 'to_list':
